@@ -426,10 +426,13 @@ impl<'a> Gen<'a> {
     /// print a generated program: half of the time fully bracketed, half of the time with only the
     /// brackets the priority table requires
     pub fn print(&mut self, g: &G) -> String {
-        if self.rng.chance(1, 2) {
-            g.min()
+        let s = if self.rng.chance(1, 2) { g.min() } else { g.top() };
+        // a fifth of the programs carry annotations (`@name` between tokens, a `@@` line in front): the parser
+        // keeps them as detached nodes the builder has to skip; they never change what a program does
+        if self.rng.chance(1, 5) {
+            annotate(&s, self.rng, 12)
         } else {
-            g.top()
+            s
         }
     }
 
@@ -952,3 +955,38 @@ pub fn gen_input(rng: &mut Rng, keys: &[String]) -> crate::val::Val {
         }
     }
 }
+
+/// insert annotations at token boundaries chosen by `rng` (a space becomes ` @a<k> `; a line annotation in front)
+pub fn annotate(src: &str, rng: &mut Rng, pct: u32) -> String {
+    let mut out = String::new();
+    if rng.chance(1, 3) {
+        out.push_str("@@ note\n");
+    }
+    let mut in_text: Option<char> = None;
+    let chars: Vec<char> = src.chars().collect();
+    let mut k = 0;
+    for (i, c) in chars.iter().enumerate() {
+        match in_text {
+            Some(q) => {
+                if *c == q {
+                    in_text = None;
+                }
+                out.push(*c);
+                continue;
+            }
+            None => {
+                if *c == '"' || *c == '\'' {
+                    in_text = Some(*c);
+                }
+            }
+        }
+        out.push(*c);
+        // only a single space between two non-space characters (never inside a blank-line separator)
+        if *c == ' ' && i > 0 && chars[i - 1] != ' ' && chars[i - 1] != '\n' && i + 1 < chars.len() && chars[i + 1] != ' ' && chars[i + 1] != '\n' && rng.chance(pct, 100) {
+            k += 1;
+            out.push_str(&format!("@a{} ", k));
+        }
+    }
+    out
+}
+
